@@ -55,4 +55,7 @@ def run(rep, fb, tier):
     from ..rules import lints as _ly
     _ly.rule_growth_progress(rep, fb)
     _ly.rule_shift_literal(rep, fb)
+    from ..rules import lints as _lz
+    _lz.rule_sibling_sizing(rep, fb)
+    _lz.rule_raw_base_pointer(rep, fb)
     rep.units = fb.units
